@@ -17,7 +17,7 @@ from leaspy.models.obs_models import observation_model_factory
 
 
 def cohort(n_ind=7, dim=2, seed=0, missing=0.0, events=False, binary=False, min_visits=2, max_visits=5,
-           ids=None):
+           ids=None, n_events=1):
     """A logistic-like longitudinal table: ID, TIME, Y0..Y{dim-1} (+ EVENT_TIME, EVENT_BOOL)."""
     rng = np.random.RandomState(seed)
     rows = []
@@ -45,7 +45,22 @@ def cohort(n_ind=7, dim=2, seed=0, missing=0.0, events=False, binary=False, min_
                 row["EVENT_BOOL"] = ev_b
             rows.append(row)
     df = pd.DataFrame(rows)
-    if events and n_ind >= 2 and df["EVENT_BOOL"].nunique() == 1:
+    if events and n_events > 1:
+        # competing risks: observed events get a kind 1..n_events (by individual, cycling), censored ones stay 0
+        kinds = {i: 1 + (k % n_events) for k, i in enumerate(dict.fromkeys(df["ID"]))}
+        df["EVENT_BOOL"] = [int(b) * kinds[i] for i, b in zip(df["ID"], df["EVENT_BOOL"])]
+        obs = [i for i in kinds if int(df.loc[df["ID"] == i, "EVENT_BOOL"].iloc[0]) > 0]
+        # every kind observed at least once, and at least one censored individual
+        ids_all = list(kinds)
+        for kk in range(1, n_events + 1):
+            if not (df["EVENT_BOOL"] == kk).any():
+                df.loc[df["ID"] == ids_all[(kk - 1) % len(ids_all)], "EVENT_BOOL"] = kk
+        if (df["EVENT_BOOL"] > 0).all():
+            df.loc[df["ID"] == ids_all[-1], "EVENT_BOOL"] = 0
+        _ = obs
+    elif events:
+        df["EVENT_BOOL"] = df["EVENT_BOOL"].astype(bool)
+    if events and n_events == 1 and n_ind >= 2 and df["EVENT_BOOL"].nunique() == 1:
         # the joint model requires at least one observed and one censored event: flip the last individual's flag
         last = df["ID"].iloc[-1]
         df.loc[df["ID"] == last, "EVENT_BOOL"] = not bool(df["EVENT_BOOL"].iloc[0])
@@ -108,8 +123,16 @@ QUICK = ["logistic_diag_src1", "linear_scalar_src1", "joint_src1"]
 SAMPLER_KINDS = ["Gibbs", "FastGibbs", "Metropolis-Hastings"]
 
 
+# configurations used by single checks only (not iterated over by the thorough tiers that walk CONFIGS)
+EXTRA_CONFIGS = {
+    "joint_src1_ev2": (lambda: JointModel("joint", dimension=2, source_dimension=1, nb_events=2), dict(dim=2, events=True, n_events=2)),
+    "joint_nosrc_ev2": (lambda: JointModel("joint", dimension=2, source_dimension=0, nb_events=2,
+                                           obs_models=(observation_model_factory("gaussian-scalar"),)), dict(dim=2, events=True, n_events=2)),
+}
+
+
 def make(name, n_ind=7, seed=0, missing=0.0, **kw):
-    ctor, dkw = CONFIGS[name]
+    ctor, dkw = CONFIGS[name] if name in CONFIGS else EXTRA_CONFIGS[name]
     dkw = dict(dkw)
     dkw.update(kw)
     df = cohort(n_ind=n_ind, seed=seed, missing=missing, **dkw)
